@@ -1,15 +1,15 @@
-from obl.c11_parts import read_block_obls
+from obl.c11_parts import read_block_obls, who_verifies_obls
 from obl.vset_common import get_obls
 
 # a: block reads are accepted only with a matching checksum; d: table errors stop the lookup
-OBLIGATIONS = read_block_obls("a") + get_obls("d", 0, ((1, 1, 0, 1, 2, 1), (0, 1, 1, 1, 2, 2)), table_err=1)
+OBLIGATIONS = read_block_obls("a") + who_verifies_obls("b") + get_obls("d", 0, ((1, 1, 0, 1, 2, 1), (0, 1, 1, 1, 2, 2)), table_err=1)
 
 META = {
     "level": "model_checking",
     "level_text": "Bounded model checking (CBMC) of the code-level contract behind corruption detection: the real ldb_read_block accepts a block with verification on only if the stored trailer equals mask(F(payload||type)) recomputed independently, turns short reads, read errors, unknown block types and absurd sizes into error statuses and returns exactly the payload bytes; the real ldb_version_get returns a table-layer error instead of falling through to older data. (The log-reader side - accepted physical record => checksum matches, drops reported - is decided under C15; decoder totality under C18.)",
-    "level_note": "Trusted: CBMC semantics; the abstract streaming checksum F stands for CRC-32C (the real kernel is checked against a bitwise reference under C15.k), so the probabilistic part (a flip that preserves the CRC) is outside; Snappy is replaced by its contract here; which callers pass verify_checksums/paranoid flags (C11.b) and whole-file byte-flip campaigns are not encoded.",
+    "level_note": "Trusted: CBMC semantics; the abstract streaming checksum F stands for CRC-32C (the real kernel is checked against a bitwise reference under C15.k), so the probabilistic part (a flip that preserves the CRC) is outside; Snappy is replaced by its contract here; which callers other than ldb_table_open pass verify_checksums/paranoid flags and whole-file byte-flip campaigns are not encoded.",
     "bounds": ["block payload 0..3 bytes quick (..9 thorough), every byte value, symbolic trailer/offset/options/short reads/errors", "version_get: <=2 files, one of them failing"],
-    "outside": ["real CRC collisions", "who enables verification (C11.b)", "two-level iterator status propagation (C07.d)", "multi-KiB files"],
+    "outside": ["real CRC collisions", "who enables verification outside ldb_table_open (compaction input iterator, repair, recovery readers)", "two-level iterator status propagation (C07.d)", "multi-KiB files"],
     "models": ["kit/vp_cksum.c abstract checksum", "pread/Snappy contract stubs in harness/C11/read_block.c", "ldb_tables_get contract model"],
     "design_ref": "DESIGN.md section 6 C11",
 }
